@@ -189,6 +189,31 @@ func runC17(c *Ctx) {
 			s.Violate("C17|client-config-clamp", "client ended up with %+v, documented clamping of %+v gives %+v", got, cfg, want)
 		}
 	}
+	// other clients of the same process, configured afterwards with other retry settings, are none of
+	// this client's business: its bound and its waits stay what its own option said
+	if t.Bool(35) {
+		others := 1 + t.Draw(2)
+		for i := 0; i < others; i++ {
+			var o mcp.ClientOption
+			switch t.Draw(3) {
+			case 0:
+				o = mcp.WithSimpleRetry([]int{0, 1, 5, 9}[t.Draw(4)])
+			case 1:
+				o = mcp.WithRetry(mcp.RetryConfig{MaxRetries: 1 + t.Draw(8), InitialBackoff: time.Duration(1+t.Draw(900)) * time.Millisecond, BackoffFactor: 1 + float64(t.Draw(40))/10, MaxBackoff: time.Duration(1+t.Draw(100)) * time.Second})
+			default:
+				o = mcp.WithSimpleRetry(3)
+			}
+			other := w.newClient(o)
+			defer other.API.Close()
+		}
+		c.SetPlan("other_clients_configured_later", others)
+		if got, ok := mcp.VerifClientRetryConfig(cl.HTTP); ok && cfg.Set {
+			want := mcp.VerifRetryConfig{MaxRetries: eff.Retries, InitialBackoff: eff.Initial, BackoffFactor: eff.Factor, MaxBackoff: eff.Max}
+			if got != want {
+				s.Violate("C17|client-config-changed-by-another-client", "after %d other clients were configured the first client's retry configuration is %+v, its own option gave %+v", others, got, want)
+			}
+		}
+	}
 	if err := initClient(c, cl); err != nil {
 		s.Violate("C17|init-failed|"+mode, "Initialize failed: %v", err)
 		return
